@@ -28,6 +28,11 @@ OBLIGATIONS = [
     'C17.link_tx', 'C17.line_8n1', 'C17.line_8n1_link_prefix',
     # delivery clause: negative witness; hand-off half proved for all consumers that keep up
     'C17.slow_consumer_counterexample', 'C17.des_handoff', 'C17.handoff_inv', 'C17.delivered_eq_hs', 'C17.rx_handoff_partial',
+    # receive side: mirror bridge, phase step, schedule relative to the transmitter, closed-loop invariant
+    'C17.rx_step_eq', 'C17.rx_step', 'C17.J_step', 'C17.pendRx_step', 'C17.link_step_inv', 'C17.link_run_inv',
+    'C17.rx_sampling_inv', 'C17.rx_sampling', 'C17.link_delivers', 'C17.link_delivers_drained',
+    # liveness
+    'C17.rank_step', 'C17.live_pos', 'C17.ser_live', 'C17.ready_after_drain', 'C17.line_8n1_drained',
 ]
 
 PROPOSED_FINDINGS = [{
